@@ -134,6 +134,10 @@ def run(an: Analysis, rep):
                     f"(e.g. `from __future__ import {N}`)" if d == "rejected" else f"disposition '{d}'", config=cfg)
         # ---- R01.5
         r015(an, rep, V)
+    from .common import SharedRules
+    from . import c02, c10
+    rep.run(c10.format_rules, an, SharedRules(rep, "R01.L", "line-table format constants (shared with C10's R10.*): byte equality of co_lnotab / co_linetable needs them"))
+    rep.run(c02.jump_rules, an, SharedRules(rep, "R01.J", "jump scale / offsets / cell-free shift on both sides (shared with C02's R02.3-R02.5): byte equality of co_code needs them"))
     for (cq, fname), (ok, cfg, why, where) in sorted(produced_any.items()):
         rep.add("R01.3", f"{cq}.{fname}::produced", ok, where, why + (f" (under {cfg})" if ok else " (under every interpreter version)"), config=cfg)
     rep.stats.update(an.stats(interps))
